@@ -1,0 +1,18 @@
+//go:build verif
+
+// Verification contracts (comments only; compiled only with -tags verif).
+// Checked by /verif/bin/govc; see /verif/DESIGN.md.
+
+package synccommitteemessenger
+
+//@ func NewDuty
+//@   ensures result != nil && fresh(result) && result.slot == slot && result.contributionIndices == contributionIndices && result.accounts != nil && result.aggregatorSubcommittees != nil
+//@   modifies nothing
+//@
+//@ // the per-validator aggregator maps are never nil once entered
+//@ spec func aggMapsOK(d *Duty) bool = d != nil && d.aggregatorSubcommittees != nil && (forall v phase0.ValidatorIndex :: in(d.aggregatorSubcommittees, v) ==> d.aggregatorSubcommittees[v] != nil)
+//@ func (*Duty).SetAggregatorSubcommittees
+//@   requires aggMapsOK(d)
+//@   ensures aggMapsOK(d)
+//@   ensures in(d.aggregatorSubcommittees, index) && in(d.aggregatorSubcommittees[index], subcommittee) && d.aggregatorSubcommittees[index][subcommittee] == selectionProof
+//@   modifies contents(d.aggregatorSubcommittees), contents(d.aggregatorSubcommittees[index])
